@@ -117,6 +117,9 @@ def collect_terms(fs, pred):
     return out
 
 
+_WIT = itertools.count()
+
+
 def index_terms(fs, cap=14):
     """ground Int terms used as array indices (select/store) in quantifier-free parts"""
     out, ids = [], set()
@@ -341,7 +344,30 @@ def build_stages(pc2, g, sk, idx, hints, float_mode):
         if t.get_id() not in seen:
             seen.add(t.get_id())
             terms.append(t)
+    if quant:
+        # constant indices the goal reads at (string-literal dictionary keys are interned integers): instances of key-quantified hypotheses
+        consts, cids = [], set()
+        for x in collect_terms([g], lambda t: z3.is_app(t) and t.decl().kind() == z3.Z3_OP_SELECT):
+            t = x.arg(1)
+            if z3.is_int_value(t) and t.get_id() not in cids and t.get_id() not in seen:
+                cids.add(t.get_id())
+                consts.append(t)
+        terms += consts[:3]
     inst = instances(quant, terms) if quant else []
+    # an instance whose PREMISE is still universally quantified, (forall j. P(j)) -> R, is the hypothesis (exists j. not P(j)) or R:
+    # name the witness (skolem constant) and instantiate the other universal hypotheses at it (e.g. an invariant "a key no element so far
+    # defines is absent" against a postcondition premise "no element defines the key")
+    sk_new, inst2 = [], []
+    for f in inst:
+        if z3.is_implies(f) and z3.is_quantifier(f.arg(0)) and f.arg(0).is_forall() and all(f.arg(0).var_sort(k_) == I for k_ in range(f.arg(0).num_vars())) and len(sk_new) < 6:
+            q = f.arg(0)
+            cs = [z3.Const(f"sk!w{next(_WIT)}", I) for _ in range(q.num_vars())]
+            inst2.append(z3.Or(z3.Not(z3.substitute_vars(q.body(), *reversed(cs))), f.arg(1)))
+            sk_new += cs
+        else:
+            inst2.append(f)
+    if sk_new:
+        inst = inst2 + instances(quant, sk_new)
     inst_qf = strip_q(inst)
     inst_qf += wf_instances(quant, qf + inst_qf + [g])
     neg = z3.Not(g)
